@@ -299,8 +299,12 @@ func runCase(in caseIn, wantCoq bool) (coq string, oracle string, nontrivial boo
 		}
 		qs = append(qs, fmt.Sprintf("(%s, %s, %s)", hxlib.CoqList(its), hxlib.CoqBool(obs[k].c1), hxlib.CoqBool(obs[k].c2)))
 	}
-	coq = fmt.Sprintf("(CBloom %s %s %s %s %s %s %s %s)", hxlib.CoqList(tbl), hxlib.CoqList(logs), coqShape(&in.Shape),
-		hxpack.Bytes(root.LogBytes()), hxpack.Bytes(root.Bytes()), hxpack.Bytes(comp), hxpack.Bytes(rt.LogBytes()), hxlib.CoqList(qs))
+	rtTerm := "None"
+	if !bytes.Equal(rt.LogBytes(), root.LogBytes()) {
+		rtTerm = "(Some " + hxpack.Bytes(rt.LogBytes()) + ")"
+	}
+	coq = fmt.Sprintf("(CBloom %s %s %s %s %s %s %s)", hxlib.CoqList(tbl), hxlib.CoqList(logs), coqShape(&in.Shape),
+		hxpack.Bytes(root.LogBytes()), hxpack.Bytes(root.Bytes()), rtTerm, hxlib.CoqList(qs))
 	return coq, oracle, nontrivial
 }
 
@@ -559,8 +563,8 @@ func main() {
 			"logs are accumulated with AddLog into receipt blooms and merged with Merge in a random tree shape (or the left fold of service/transition.go), some operands handed over as a foreign module.LogsBloom; " +
 			"a second random grouping/order (with repetitions) of the same logs must give the same bloom; the bloom is sent through CompressedBytes -> NewLogsBloomFromCompressed; " +
 			"queries: single items and multi-item filters of added logs (must be contained), absent items, present values at other positions, position 255; " +
-			"observed: LogBytes, Bytes, CompressedBytes, LogBytes after the compression round trip, Contain before and after; non-trivial = at least two logs that add items and at least one Merge; distinct = distinct Coq case term",
-		Shard:    130,
+			"observed: LogBytes, Bytes, LogBytes after the compression round trip, Contain before and after; non-trivial = at least two logs that add items and at least one Merge; distinct = distinct Coq case term",
+		Shard:    50,
 		Preamble: "From Coq Require Import Uint63.\nFrom GoloopRun Require Import Run_Pack63 Run_C26.",
 		Gen:   gen, Replay: replay,
 	})
